@@ -52,12 +52,16 @@ type result struct {
 	counts map[string]int
 	sigs   []string
 	maxRat float64
+	tag    string // case description appended to failure texts
 	xzRuns int
 	wfRuns int
 }
 
 func (r *result) count(k string) { r.counts[k]++ }
 func (r *result) fail(key, desc, replay string) {
+	if r.tag != "" {
+		desc += " [" + r.tag + "]"
+	}
 	r.fails = append(r.fails, failure{key, desc, replay})
 }
 
@@ -134,6 +138,12 @@ func (w *worker) runXz(format string, enc []byte) (out []byte, errText string) {
 
 func (w *worker) eval(k *kase) *result {
 	res := &result{counts: map[string]int{}}
+	switch k.kind {
+	case "rt":
+		res.tag = fmt.Sprintf("payload %q, %d bytes", k.name, len(k.data))
+	case "dec":
+		res.tag = fmt.Sprintf("input %q, %d bytes, format %s", k.name, len(k.enc), fmtName(k.format))
+	}
 	switch k.kind {
 	case "fn":
 		for _, o := range k.ops {
@@ -506,6 +516,10 @@ func main() {
 	} else if br.wb != nil {
 		wb := br.wb
 		defer wb.cleanup()
+		if wb.note != "" {
+			r.Note(wb.note)
+			r.Count("wuffs-compiler-fallback(last commit)")
+		}
 		pass(func(w *worker, i int) {
 			if cases[i].kind == "rt" && cases[i].external {
 				w.evalWuffs(cases[i], results[i])
